@@ -188,6 +188,15 @@ def c15Step (s : St) (req : List Sx) : St × String :=
       let w0 : Worker Val := { ex := { procs := [(0, { result := some (.ok ()) })] }, variant := v }
       ({ ws := w0 :: List.replicate (n - 1) { variant := v } }, "ok")
     | none => (s, "bad-request")
+  -- `(init n on|off on|off)`: select-waits switch, then the `releaseDead` switch (notes/C06-fixes/01); pid 0 (the
+  -- REPL process) is the only persistent process
+  | [.list [.atom "init", n, .atom sw, .atom rel]] =>
+    match n.asNat with
+    | some n =>
+      let v : Variant := { selectWaitsForAnswer := sw == "on", releaseDead := rel == "on" }
+      let w0 : Worker Val := { ex := { procs := [(0, { result := some (.ok ()) })] }, variant := v, persistent := [0] }
+      ({ ws := w0 :: List.replicate (n - 1) { variant := v, persistent := [0] } }, "ok")
+    | none => (s, "bad-request")
   | [.list (.atom "cmd" :: wi :: rest)] =>
     match wi.asNat, cmdOfSx rest with
     | some i, some c =>
